@@ -177,7 +177,7 @@ CHECKS['C06'] = dict(
     title='Bilinear forms equal the exact integral of the two transformed splines',
     level='exploration',
     technique='bounded-exhaustive enumeration of operator pairs (template instantiations), order pairs, window pairs, factor placements and coefficient patterns on the real BilinearForm with an exact rational scalar against the exact integral computed in the reference model',
-    level_text='For every ordered pair from a list of 4 (thorough 8) operator expressions, every order pair 0..2 (0..3), every ordered window pair of a 5-point grid, every placement of the spline-valued factor and unit x unit / generic coefficient patterns, the value must equal the integral of ref_apply(O1,a)*ref_apply(O2,b) over the common intervals exactly; swapping the (operator, spline) pairs must not change it; ScalarProduct equals the identity form; equal grids in distinct objects give the same value; three pairs of operators of the same C++ type with different state (scalars, factor splines) on every order pair and window pair.',
+    level_text='For every ordered pair from a list of 4 (thorough 8) operator expressions, every order pair 0..2 (0..3), every ordered window pair of a 5-point grid, every placement of the spline-valued factor and unit x unit / generic coefficient patterns, the value must equal the integral of ref_apply(O1,a)*ref_apply(O2,b) over the common intervals exactly; swapping the (operator, spline) pairs must not change it; ScalarProduct equals the identity form; equal grids in distinct objects give the same value; three pairs of operators of the same C++ type with different state (scalars, factor splines) on every order pair and window pair. High orders: the order pairs (14,14), (20,9), (9,20), (31,1), (16,17) with the identity pair and X1|Dx1 on six window pairs.',
     level_note='Trusted: GMP, engine/refpp.h (antiderivative evaluated at the interval end points; shares nothing with the Horner-in-h^2 kernel). Operator pairs and orders outside the enumerated matrix are not instantiated.',
     units=c06_units,
     rule='cases = (grid, operator pair, order pair, factor window, window pair, coefficient-pattern pair, grid object variant). Non-trivial = exact integral non-zero.',
@@ -192,12 +192,12 @@ CHECKS['C07'] = dict(
     title='Linear forms equal the exact integral and agree with the bilinear form',
     level='exploration',
     technique='bounded-exhaustive enumeration of operator expressions, orders (both parities of the kernel size), windows, factor placements and coefficient patterns on the real LinearForm against the exact reference integral, plus exhaustive cross-check BilinearForm == LinearForm of the product spline',
-    level_text='LinearForm{O}(a) for 9 operator expressions, orders 0..4, every window of 5-point grids and unit/zero/generic coefficients equals the exact integral of ref_apply(O,a); zero for interval-free splines. For 4x4 operator pairs, orders 0..2 squared and every window pair the bilinear form equals the identity linear form of (O1 a)*(O2 b) exactly.',
+    level_text='LinearForm{O}(a) for 9 operator expressions, orders 0..4, every window of 5-point grids and unit/zero/generic coefficients equals the exact integral of ref_apply(O,a); zero for interval-free splines; orders 11, 20, 27, 28, 29, 33, 40 with the identity and with X<2>, and the linear form of products of two order-14 / order-20 splines (29 and 42 coefficients per interval). For 4x4 operator pairs, orders 0..2 squared and every window pair the bilinear form equals the identity linear form of (O1 a)*(O2 b) exactly.',
     level_note='Trusted: GMP, engine/refpp.h. The cross-check compares two library paths with each other (kernel vs operator application + product + linear kernel); both are separately compared with the reference in C06/C05/C03.',
     units=std_units('checks/c07_linear.cpp'),
     rule='cases = LF(grid, operator, order, factor window, window, pattern) | BFvsLF(operator pair, order pair, factor window, window pair, pattern variant). Non-trivial = the exact value is non-zero.',
     bounds=dict(quick='9 operators, orders 0..4, nonuni5 + far5; cross-check on nonuni5', thorough='adds neg5'),
-    guards=dict(classes=['LF:interval:outsizeodd', 'LF:interval:outsizeeven', 'LF:point:outsizeodd', 'LF:empty:outsizeeven', 'cross']),
+    guards=dict(classes=['LF:interval:outsizeodd', 'LF:interval:outsizeeven', 'LF:point:outsizeodd', 'LF:empty:outsizeeven', 'cross', 'high-order']),
     assumptions=[A_SHAPE, A_POLY],
 )
 
@@ -453,6 +453,10 @@ def c19_units(tier):
     for name, src in [('c01', 'checks/c01_generator.cpp'), ('c02', 'checks/c02_eval.cpp'), ('c03', 'checks/c03_arith.cpp'), ('c04', 'checks/c04_primitive.cpp'),
                       ('c07', 'checks/c07_linear.cpp')] + ([('c06', 'checks/c06_bilinear.cpp'), ('c12', 'checks/c12_interp.cpp'), ('c08', 'checks/c08_grids.cpp')] if th else []):
         us.append(unit(name + '-lazy', src, 'exact', flags=['-DVF_LAZY'], kind='compile_is_verdict'))
+    # trivially copyable archetype whose zero is not the all-zero bit pattern (memcpy / memset fast paths)
+    for name, src in [('c01', 'checks/c01_generator.cpp'), ('c02', 'checks/c02_eval.cpp'), ('c03', 'checks/c03_arith.cpp'), ('c04', 'checks/c04_primitive.cpp'),
+                      ('c07', 'checks/c07_linear.cpp')] + ([('c06', 'checks/c06_bilinear.cpp'), ('c12', 'checks/c12_interp.cpp'), ('c08', 'checks/c08_grids.cpp')] if th else []):
+        us.append(unit(name + '-triv', src, 'exact', flags=['-DVF_TRIV'], kind='compile_is_verdict'))
     for u in c05_units(tier, 'exact', 'C19', [('k1', 12)]):
         u['name'] = 'c05-' + u['name'] + '-lazy'
         u['flags'] = ['-DVF_LAZY']
@@ -472,7 +476,7 @@ CHECKS['C19'] = dict(
     level='exploration',
     engine='instantiation matrix + E1/E2/E3 on the strict archetype',
     technique='enumeration of configurations: every public class template is explicitly instantiated and every function/operator template is called with a strict scalar archetype (GMP rational offering exactly the documented operations, explicit construction from int only); compile failure is the violation; the bounded-exhaustive exact checks of the other properties are then re-run on that archetype',
-    level_text='vf::Q offers default/copy construction, explicit Q(int), + - * / and compound forms, unary minus and the six comparisons - nothing else (no implicit conversions, no <cmath>, no numeric_limits, no streaming). vf::LQ offers the same through lazily evaluated operators (proxies referring to their operands, the scheme of GMP mpq_class) with liveness tracking, so that results kept beyond the full expression are detected. All core templates for orders 0..4 are explicitly instantiated with it (all non-template members), and the harnesses of C01-C08, C10-C13, C15 (incl. 214 expression trees with scalars of type Q and int; thorough 10302 trees) are compiled and run with it: every result must still equal the exact reference.',
+    level_text='vf::Q offers default/copy construction, explicit Q(int), + - * / and compound forms, unary minus and the six comparisons - nothing else (no implicit conversions, no <cmath>, no numeric_limits, no streaming). vf::LQ offers the same through lazily evaluated operators (proxies referring to their operands, the scheme of GMP mpq_class) with liveness tracking, so that results kept beyond the full expression are detected. vf::TQ offers the same as a trivially copyable 4-byte handle whose zero is not the all-zero bit pattern (memcpy/memset/bitwise shortcuts selected by type traits are taken and an all-zero handle is reported when read); five harnesses (thorough eight) run with it. All core templates for orders 0..4 are explicitly instantiated with it (all non-template members), and the harnesses of C01-C08, C10-C13, C15 (incl. 214 expression trees with scalars of type Q and int; thorough 10302 trees) are compiled and run with it: every result must still equal the exact reference.',
     level_note='The deciding step of the compile half is the compiler\'s type check over an enumerated instantiation set (bounded enumeration of configurations, not of behaviours). Paths in if-constexpr branches not selected by the enumerated orders are not type-checked. Trusted: g++ 12.',
     units=c19_units,
     report_uninit=True,
